@@ -663,3 +663,144 @@ class StartStopSuite(SystemSuite):
             if len(bells) == n and sorted(bells) != list(range(1, n + 1)):
                 return f"row {r} = {bells} is not a complete row of the tower"
         return None
+
+
+# ============================================================================= C17: tower size vs stage
+class GateSuite(SystemSuite):
+    """Stage x tower-size grid, custom start rows shorter/equal/longer than the tower, size-change
+    sequences between touches, queued generators in server mode."""
+    name = "size_gate"
+    fuel = 20000
+    coq_cap = {"quick": 300}
+
+    def make(self, rng, *, spec, n0, sizes, custom_len_ok=True, server=False, queued=None, queue_pos=0,
+             first_touch=True):
+        dur = Fraction(1, 8)
+        t = Fraction(131, 1000)
+        evs = [ev(0, "global", [True] * n0)]
+        n = n0
+        if server:      # in server mode Wheatley rings the bells assigned to the user called "Wheatley"
+            evs.append(ev(Fraction(11, 1000), "user_entered", 1, "Wheatley"))
+            for b in range(1, 17):
+                evs.append(ev(Fraction(12, 1000) + Fraction(b, 100000), "assign", b, 1))
+        if server and queued is not None and queue_pos == 0:
+            evs.append(ev(Fraction(61, 1000), "row_gen", queued))
+        if first_touch:
+            evs.append(ev(t, "call", "Look to"))
+            evs.append(ev(t + Fraction(1, 50), "call", "Stand next"))
+            # the touch (if it starts) lasts two rows of n ticks
+            t = t + 2 * n * (dur + D001) + Fraction(37, 100)
+        for i, m in enumerate(sizes):
+            evs.append(ev(t, "size", m))
+            t += Fraction(7, 100)
+            n = m
+            if server and queued is not None and queue_pos == i + 1:
+                evs.append(ev(t, "row_gen", queued))
+                t += Fraction(3, 100)
+        look2 = t + Fraction(1, 1000)
+        evs.append(ev(look2, "call", "Look to"))
+        horizon = look2 + 4 * n * (dur + D001) + Fraction(1, 7)
+        return {"gen": spec, "udi": True, "stop_at_rounds": False, "call_comps": True,
+                "name": "Wheatley" if server else None, "instance": 7 if server else None,
+                "rhythm": {"kind": "scripted", "durs": [fstr(dur)] * 400}, "delta": "0",
+                "horizon": fstr(horizon), "events": sorted_events(evs),
+                "oracle": {"final_n": n, "look2": fstr(look2), "sizes": [n0] + list(sizes), "queued": queued,
+                           "queue_pos": queue_pos, "server": server, "first_touch": first_touch}}
+
+    def scenarios(self, rng, tier):
+        stages = range(1, 17)
+        towers = range(4, 17)
+        grid = [(s, n) for s in stages for n in towers]
+        if tier == "quick":
+            grid = [g for i, g in enumerate(grid) if i % 3 == rng.randrange(3)]
+        for stage, n in grid:                       # plain grid, no custom row: one touch
+            spec = {"kind": "plain_hunt", "stage": stage, "custom": None}
+            yield self.make(rng, spec=spec, n0=n, sizes=[], first_touch=False)
+        for _ in range(120 if tier == "quick" else 1200):   # custom start rows; size sequences
+            stage = rng.randint(2, 12)
+            k = rng.choice([rng.randint(1, stage), stage, rng.randint(stage, 16)])
+            row = list(gens.BELL_NAMES[:k])
+            rng.shuffle(row)
+            spec = {"kind": rng.choice(["plain_hunt", "pn"]), "stage": stage, "custom": "".join(row)}
+            if spec["kind"] == "pn":
+                spec.update({"method": "x1" if stage % 2 == 0 else "3.1", "bob": None, "single": None, "start_index": 0})
+            n0 = rng.randint(4, 16)
+            sizes = [rng.randint(4, 16) for _ in range(rng.randint(0, 3))]
+            yield self.make(rng, spec=spec, n0=n0, sizes=sizes, first_touch=rng.random() < 0.7)
+        for _ in range(60 if tier == "quick" else 600):     # server mode: queued generators of every stage
+            n0 = rng.randint(4, 12)
+            sizes = [rng.randint(4, 12) for _ in range(rng.randint(0, 3))]
+            s2 = rng.randint(2, 12)
+            queued = {"type": "method", "stage": s2, "notation": "x1" if s2 % 2 == 0 else "3.1"}
+            first = {"kind": "pn", "stage": rng.randint(2, 8), "method": "x1", "bob": None, "single": None,
+                     "start_index": 0, "custom": None} if rng.random() < 0.7 else {"kind": "placeholder"}
+            yield self.make(rng, spec=first, n0=n0, sizes=sizes, server=True, queued=queued,
+                            queue_pos=rng.randint(0, len(sizes)), first_touch=rng.random() < 0.6)
+
+    def to_coq(self, case, out):
+        c = {k: v for k, v in case.items() if k != "oracle"}
+        return scenario_coq(c, out, self.fuel, self.tol, self.min_margin)
+
+    def run_impl(self, case):
+        c = {k: v for k, v in case.items() if k != "oracle"}
+        return sim.run_scenario(c, gens.build_impl_generator)
+
+    def oracle_C17(self, case, out):
+        if "trace" not in out:
+            return None
+        orc = case["oracle"]
+        n = orc["final_n"]
+        look2 = Fraction(orc["look2"])
+        spec = case["gen"]
+        # which generator is to be rung at the last Look to, and does it fit?  (read off the history:
+        # a selection waits for the next Look to that can ring it; an EFFECTIVE size change to fewer
+        # bells than it needs discards it; a generator that has been rung stays until replaced)
+        def fits(g, size):
+            return g[0] != 0 and g[0] <= size and (g[1] is None or len(g[1]) <= size)
+        current = (spec.get("stage", 0), spec.get("custom"))
+        queued = None
+        q = (orc["queued"]["stage"], None) if orc["server"] and orc["queued"] is not None else None
+        size = orc["sizes"][0]
+        if q is not None and orc["queue_pos"] == 0:
+            queued = q
+        if orc["first_touch"]:
+            g = queued or current
+            if fits(g, size):
+                current, queued = g, None
+        for i, m in enumerate(orc["sizes"][1:]):
+            if m != size:
+                size = m
+                if queued is not None and queued[0] > size:
+                    queued = None
+            if q is not None and orc["queue_pos"] == i + 1:
+                queued = q
+        stage, custom = queued or current
+        rows = [(r, b, t) for (r, b, t) in rows_rung(out) if t >= look2]
+        struck = [s for s in strikes(out) if s[0] >= look2]
+        fits = stage != 0 and stage <= n and (custom is None or len(custom) <= n)
+        struck = struck or rows      # "rings" = begins rows at all (it may own no bell)
+        if not fits:
+            if struck or rows:
+                return (f"rang at Look to although the tower has {n} bells and the method needs {stage}"
+                        f"{'' if custom is None else ' / start row ' + custom}")
+            return None
+        if not struck:
+            return f"rang nothing at Look to although stage {stage} / start row {custom} fit a tower of {n}"
+        opening = [gens.BELL_NAMES.index(c) + 1 for c in custom] if custom else []
+        opening += [b for b in range(1, n + 1) if b not in opening]
+        full = [b for (_r, b, _t) in rows if len(b) == n]
+        for i, bells in enumerate(full):
+            if i < 2 and bells != opening:
+                return f"opening row {i} was {bells}, expected {opening} for a tower of {n}"
+            keep = max(stage, len(custom or ""))
+            if bells[keep:] != opening[keep:]:
+                return f"row {i}: covers {bells[keep:]} are not the surplus bells in order {opening[keep:]}"
+            if sorted(bells) != list(range(1, n + 1)):
+                return f"row {i} is not a complete row of the {n}-bell tower"
+        inits = [it for it in out["trace"] if it[1] == "r_init" and Fraction(it[0]) >= look2]
+        if inits and inits[-1][2] != n:
+            return f"the rhythm was initialised for {inits[-1][2]} bells, the tower has {n}"
+        return None
+
+    def oracle_C01(self, case, out):
+        return StartStopSuite.oracle_C01(self, {"oracle": {"n": case["oracle"]["final_n"]}}, {"trace": [it for it in out.get("trace", []) if Fraction(it[0]) >= Fraction(case["oracle"]["look2"])]}) if "trace" in out else None
